@@ -795,6 +795,31 @@ pub fn do_check(args: &Args) -> i32 {
             }
         }
     }
+    // reach probes: features of the generated programs that the mutants of sensitivity/C42.md need
+    let mut reach: BTreeMap<&'static str, u64> = BTreeMap::new();
+    for p in &progs {
+        if lines[0][&p.idx].status != "ok" {
+            continue;
+        }
+        let t = &p.text;
+        let n_defer = t.matches("defer_tick").count();
+        let n_loops = t.matches("loop {").count();
+        let feats: [(&'static str, bool); 10] = [
+            ("loop_block", n_loops >= 1),
+            ("nested_loop_block", t.contains("    loop {")),
+            ("several_loop_blocks", t.lines().filter(|l| l.starts_with("loop {")).count() >= 2),
+            ("two_or_more_defer_tick_handoffs", n_defer >= 2),
+            ("two_or_more_defer_tick_in_one_loop", p.stmts.iter().any(|s| s.starts_with("loop {") && s.matches("defer_tick").count() >= 2)),
+            ("defer_tick_cycle_top_level", t.contains("cyc")),
+            ("singleton_or_handoff_reference", t.contains("#sg") || t.contains("#stv") || t.contains("#{")),
+            ("access_group_reference", t.contains("#{")),
+            ("tee_or_union_with_3plus_legs", t.contains("[2]")),
+            ("twenty_or_more_statements", p.stmts.len() >= 20),
+        ];
+        for (k, hit) in feats {
+            *reach.entry(k).or_default() += hit as u64;
+        }
+    }
     let evaluations = progs.len() as u64 * cfgs.len() as u64;
     println!(
         "dfir leg: {} distinct programs ({} compiled, {} with a multi-input/-output operator) x {} configurations = {} compared compilations, {} pipeline runs, {:.1}s; programs with differences: {}",
@@ -908,6 +933,7 @@ pub fn do_check(args: &Args) -> i32 {
             "compile_pipeline_runs": pipeline_runs,
             "programs_with_differences": diff_programs.len(),
             "seam_probe": probe.report,
+            "reach_probes": reach,
             "runs_per_hour": per_hour as u64,
             "seeds_per_hour": if wall > 0.0 { (3600.0 / wall) as u64 } else { 0 },
             "simulated_time": {"unit": "compile pipeline runs", "total": pipeline_runs},
@@ -939,6 +965,13 @@ pub fn do_check(args: &Args) -> i32 {
         "done property={PROP} programs={} configurations={} evaluations={} (dfir {} + hydro {}) nontrivial_distinct={} pipeline_runs={} wall={:.1}s violations={}",
         progs.len(), cfgs.len(), evaluations + hydro["evaluations"].as_u64().unwrap_or(0), evaluations, hydro["evaluations"].as_u64().unwrap_or(0), nontrivial.len(), pipeline_runs, wall, reported
     );
+    if exit == 0 && progs.len() >= 200 {
+        let missing: Vec<&&str> = reach.iter().filter(|(_, v)| **v == 0).map(|(k, _)| k).collect();
+        if !missing.is_empty() || reach.len() < 10 {
+            eprintln!("HARNESS: reach probes stuck at zero: {missing:?} — the generated programs no longer reach what the check claims");
+            return 2;
+        }
+    }
     if exit == 0 && nontrivial.len() < 2 {
         eprintln!("HARNESS: fewer than 2 distinct non-trivial programs");
         return 2;
